@@ -306,6 +306,11 @@ impl VirtualSign<'_> {
 
     /// Handles `DataChunksSent` messages.
     fn data_chunks_sent<'a>(&mut self, chunks: ChunkCount) -> Option<Message<'a>> {
+        if self.state != State::ConfigInProgress && self.state != State::PixelsInProgress {
+            // We're not receiving data, so this belongs to a transfer to another sign on the bus.
+            return None;
+        }
+
         if ChunkCount(self.data_chunks) == chunks {
             match self.state {
                 State::ConfigInProgress => self.state = State::ConfigReceived,
